@@ -3,15 +3,32 @@ package main
 import (
 	"fmt"
 	"math/rand"
+	"runtime"
 	"strings"
+	"syscall"
 	"time"
 
 	"github.com/goghcrow/yae"
 )
 
-// apiOutcome runs f under recover and a stopwatch.
+// cpuNow: CPU time (user+system) consumed so far by the calling OS thread.  The budgets of C12
+// are measured in CPU time of the evaluating thread, not wall time (on a loaded machine wall time
+// measures the scheduler) and not process time (which adds the collector's parallel threads).
+// The caller has locked its goroutine to the thread.
+func cpuNow() time.Duration {
+	const rusageThread = 1 // RUSAGE_THREAD (Linux)
+	var ru syscall.Rusage
+	if err := syscall.Getrusage(rusageThread, &ru); err != nil {
+		return time.Duration(time.Now().UnixNano())
+	}
+	return time.Duration(ru.Utime.Nano() + ru.Stime.Nano())
+}
+
+// apiOutcome runs f under recover and a (CPU time) stopwatch.
 func apiOutcome(f func() error) (res string, panicked string, dur time.Duration) {
-	t0 := time.Now()
+	runtime.LockOSThread()
+	defer runtime.UnlockOSThread()
+	t0 := cpuNow()
 	func() {
 		defer func() {
 			if r := recover(); r != nil {
@@ -24,7 +41,7 @@ func apiOutcome(f func() error) (res string, panicked string, dur time.Duration)
 			res = "value"
 		}
 	}()
-	return res, panicked, time.Since(t0)
+	return res, panicked, cpuNow() - t0
 }
 
 var hostValues = []func() interface{}{
@@ -127,7 +144,7 @@ func mapKeyNest(d int) string {
 
 // growthCase measures parse time of a family at increasing depth and flags super-polynomial growth.
 func growthCase(name string, gen func(d int) string, depths []int, id string) Case {
-	if guardBegin("growth "+name) {
+	if guardBegin("growth " + name) {
 		return crashCase("growth " + name)
 	}
 	defer guardEnd()
